@@ -62,7 +62,7 @@ CHECKS += [
      "text": "Seeded search over weighted and timestamped histories (zero / all-zero weights, repeated timestamps, regressing and NaN timestamps, closing, observations after close, re-initialisation); weighted sum, mean, variances and standard deviations are compared with exact rational values resp. the exact integral of the piecewise-constant signal; rejected calls change nothing; nothing reported changes after closing.",
      "note": "weighted_mean with zero total weight must merely not raise; n/min/max of the timestamp variant not judged"},
     {"property_id": "C12", "level": "exploration", "design_ref": "DESIGN.md §4.11",
-     "technique": "deterministic simulation (history + metamorphic relations, scheduler idle; weak fit): seeded draw/reseed/reset/save/restore/clone histories over interleaved streams; unseeded streams under a virtual wall clock at the module's time seam; extreme uniforms injected at the wrapped-Random seam",
+     "technique": "deterministic simulation: seeded draw/reseed/reset/save/restore/clone histories over interleaved streams judged by metamorphic relations (single caller: scheduler idle, weak fit); unseeded streams under a virtual wall clock at the module's time seam; extreme uniforms injected at the wrapped-Random seam; two-thread layer (each thread its own stream, baton scheduler with pre-emption at the lines of streams.py, outputs == solo run)",
      "text": "Every draw of a stream that is reseeded, reset and restored is compared bit for bit with a shadow stream that is only ever constructed and drawn from; solo twins check independence from interleaving; ranges are checked for every draw including huge and single-value ranges and for scripted extreme uniforms.",
      "note": "relations, not a re-implementation: a different but valid generator passes"},
     {"property_id": "C13", "level": "exploration", "design_ref": "DESIGN.md §4.12",
